@@ -178,7 +178,7 @@ def run(ctx):
             explained = [f for f in by_id.get(o["id"], []) if (f.get("failAt", 0) > 0) == m["kind"].startswith("fault")]
             if explained and not m["kind"].startswith("variant"):
                 continue    # the trace failure of the same run is the report
-            sig = dict(site="replay", kind=m["kind"])
+            sig = dict(site="replay", kind=m["kind"], rclass=o.get("vclass", ""))
             ctx.disagree(sig, f"replay mismatch {m['kind']} on {o['expr']!r}",
                          dict(kind="replay", expr=o["expr"], want=m["want"], got=m["got"],
                               how="xp replay on the vector of this expression (bin/check %s)" % prop))
